@@ -180,8 +180,8 @@ func (c *Checker) checkReadFrom() {
 	}
 	c.floorCheck("C18.readfrom WritePacket call sites", len(deliveries), 1)
 	for _, d := range deliveries {
-		arg := sx(d.Call.Args[0])
-		c.check("C18.readfrom", anchor, "delivers the writer's own packet buffer", arg == "&$pw.pkt", "argument is "+arg)
+		arg := canonConstruct(d.Parent(), sx(d.Call.Args[0]))
+		c.check("C18.readfrom", anchor, "delivers the writer's own packet buffer", arg == "&$p0.pkt", "argument is "+arg)
 		// dominated by the true edge of (count == 188)
 		guard, cnt := dominatingEq188(d)
 		if !c.check("C18.readfrom", anchor, "delivery guarded by read count == 188", guard != nil, "no dominating test `count == 188`") {
@@ -195,10 +195,10 @@ func (c *Checker) checkReadFrom() {
 				name := calleeName(call)
 				switch {
 				case name == "io.ReadFull" && len(call.Call.Args) == 2:
-					okFull = sx(call.Call.Args[1]) == "&$pw.pkt[:]"
+					okFull = canonConstruct(call.Parent(), sx(call.Call.Args[1])) == "&$p0.pkt[:]"
 					how = "io.ReadFull into " + sx(call.Call.Args[1])
 				case name == "io.ReadAtLeast" && len(call.Call.Args) == 3:
-					okFull = sx(call.Call.Args[1]) == "&$pw.pkt[:]" && sx(call.Call.Args[2]) == "188"
+					okFull = canonConstruct(call.Parent(), sx(call.Call.Args[1])) == "&$p0.pkt[:]" && sx(call.Call.Args[2]) == "188"
 					how = "io.ReadAtLeast into " + sx(call.Call.Args[1]) + " min " + sx(call.Call.Args[2])
 				case call.Call.IsInvoke() && call.Call.Method.Name() == "Read":
 					how = "a single Read call (a reader may return fewer than 188 bytes per call: short reads would be dropped or reported as invalid length)"
